@@ -485,14 +485,31 @@ func (serviceCore *ServiceCore) FilterDatasets(
 	result := make([]server.DatasetName, 0)
 
 	for _, dataset := range datasets {
-		for _, ac := range acl {
-			if serviceCore.CheckGranted(ac, "/datasets/"+dataset.Name, "read") {
-				result = append(result, dataset)
-			}
+		if serviceCore.IsGranted(acl, "/datasets/"+dataset.Name, "read") {
+			result = append(result, dataset)
 		}
 	}
 
 	return result, nil
+}
+
+// IsGranted decides a whole access control list: the action on the resource is granted if at least one
+// entry allows it and no entry that covers the same resource and action denies it. A deny entry is
+// never overridden by an allow entry, whatever their order.
+func (serviceCore *ServiceCore) IsGranted(acl []*AccessControl, resource string, action string) bool {
+	granted := false
+	for _, ac := range acl {
+		if ac.Deny {
+			allow := *ac
+			allow.Deny = false
+			if serviceCore.CheckGranted(&allow, resource, action) {
+				return false
+			}
+		} else if serviceCore.CheckGranted(ac, resource, action) {
+			granted = true
+		}
+	}
+	return granted
 }
 
 func (serviceCore *ServiceCore) CheckGranted(ac *AccessControl, resource string, action string) bool {
